@@ -207,15 +207,23 @@ Proof.
   unfold legacy_overflow, legacy_form. rewrite !Bool.andb_true_iff, !Z.eqb_eq, !Z.ltb_lt. tauto.
 Qed.
 
-(* flexfec: a FEC packet is produced exactly for the indices j < nfec whose covered media
-   packets (indices = j mod nfec) are all marshalable, and only for consecutive batches *)
+(* flexfec: at most the configured number of FEC packets, and never more than the 110 rows of
+   the coverage table *)
 Lemma encode_length c nfec buf :
-  (length (encode c nfec buf) <= Z.to_nat nfec)%nat.
+  (length (encode c nfec buf) <= Z.to_nat nfec)%nat /\ (length (encode c nfec buf) <= 110)%nat.
 Proof.
-  unfold encode. destruct (consecutive _); [|cbn; lia].
-  rewrite <- (seq_length (Z.to_nat nfec) 0) at 2.
-  induction (seq 0 (Z.to_nat nfec)) as [|j l IH]; cbn [flat_map length]; [lia|].
-  rewrite app_length. destruct (covers_legacy _ _ _ _); cbn [length]; lia.
+  unfold encode. destruct (_ && _); [|cbn; lia].
+  rewrite repeat_length. lia.
+Qed.
+
+(* legacy-padded media packets are protected like any other: the count depends on the batch
+   only through its length and the order of its sequence numbers *)
+Lemma encode_count c nfec buf :
+  consecutive (map (fun p => h_seq (p_hdr p)) buf) = true -> (1 <= length buf <= 109)%nat ->
+  encode c nfec buf = repeat (fec_pkt c) (Z.to_nat (Z.min nfec 110)).
+Proof.
+  intros Hc [H1 H2]. unfold encode. rewrite Hc.
+  apply Nat.leb_le in H1, H2. rewrite H1, H2. reflexivity.
 Qed.
 
 (* ------------------------------------------------------------------------- *)
